@@ -196,6 +196,62 @@ func TestReplay(t *testing.T) {
 					probs = append(probs, "xml-unregistered-value-not-in-hex:"+xml)
 				}
 			}
+		case "crossenum":
+			// holders whose member is of one enumeration type and is written under another enumeration's tag
+			type h1 struct {
+				V kmip.CertificateType `ttlv:"KeyFormatType"`
+			}
+			type h2 struct {
+				V kmip.DRBGAlgorithm `ttlv:"BlockCipherMode"`
+			}
+			type h3 struct {
+				V kmip.KeyFormatType `ttlv:"CertificateType"`
+			}
+			check := func(name string, in any, out any, get func() uint32, want uint32, vname string) {
+				for _, e := range []struct {
+					n string
+					m func(any) []byte
+					u func([]byte, any) error
+				}{{"xml", func(v any) []byte { e := ttlv.NewXMLEncoder(); e.TagAny(0x540031, v); return e.Bytes() },
+					func(doc []byte, v any) error {
+						d, err := ttlv.NewXMLDecoder(doc)
+						if err != nil {
+							return err
+						}
+						return d.TagAny(0x540031, v)
+					}},
+					{"json", func(v any) []byte { e := ttlv.NewJSONEncoder(); e.TagAny(0x540031, v); return e.Bytes() },
+						func(doc []byte, v any) error {
+							d, err := ttlv.NewJSONDecoder(doc)
+							if err != nil {
+								return err
+							}
+							return d.TagAny(0x540031, v)
+						}}} {
+					doc := e.m(in)
+					if !strings.Contains(string(doc), vname) {
+						probs = append(probs, fmt.Sprintf("%s:%s:value-not-written-by-its-name:%s", name, e.n, doc))
+					}
+					if err := e.u(doc, out); err != nil {
+						probs = append(probs, fmt.Sprintf("%s:%s:not-read-back:%v", name, e.n, err))
+					} else if get() != want {
+						probs = append(probs, fmt.Sprintf("%s:%s:read-back-as-%d-instead-of-%d", name, e.n, get(), want))
+					}
+				}
+			}
+			{
+				var o1 h1
+				var o2 h2
+				var o3 h3
+				switch c.Value {
+				case 1:
+					check("CertificateType-under-KeyFormatType", &h1{V: kmip.CertificateTypeX_509}, &o1, func() uint32 { return uint32(o1.V) }, uint32(kmip.CertificateTypeX_509), "X_509")
+				case 2:
+					check("DRBGAlgorithm-under-BlockCipherMode", &h2{V: kmip.DRBGAlgorithmCTR}, &o2, func() uint32 { return uint32(o2.V) }, uint32(kmip.DRBGAlgorithmCTR), "CTR")
+				case 3:
+					check("KeyFormatType-under-CertificateType", &h3{V: kmip.KeyFormatTypeX_509}, &o3, func() uint32 { return uint32(o3.V) }, uint32(kmip.KeyFormatTypeX_509), "X_509")
+				}
+			}
 		case "vendortype":
 			registerVendorTypes()
 			var forms []string
